@@ -146,5 +146,66 @@ theorem hist_len_runFrom {lin circ : Nat} (eps : ℝ) {s : EE ℝ} (h : EEInv li
     simp only [pushCount]
     omega
 
+/-- a call that pushes `b` is a windowed `extract`: it returns `true` and `mean(history, weights)` -/
+theorem step_of_pushed (eps : ℝ) (s : EE ℝ) (c : Call ℝ) (b : List ℝ) (hp : pushed eps s c = some b) :
+    ∃ f, s.method.fam = some f ∧
+      step eps s c = ((windowed s f b).1, ⟨true, some (windowed s f b).2⟩) := by
+  cases c with
+  | setMethod m => simp [pushed] at hp
+  | setWindow n => simp [pushed] at hp
+  | clear => simp [pushed] at hp
+  | move => simp [pushed] at hp
+  | extract2 a =>
+    rcases extract2_cases eps s a with ⟨_, _, hp'⟩ | ⟨_, _, hp', _⟩ | ⟨f, b', _, hf, hp', _, he⟩
+    · rw [hp] at hp'; cases hp'
+    · rw [hp] at hp'; cases hp'
+    · rw [hp] at hp'; cases hp'
+      exact ⟨f, hf, he⟩
+  | extract5 a =>
+    rcases extract5_cases eps s a with ⟨_, hp', _⟩ | ⟨f, b', hf, hp', _, he⟩
+    · rw [hp] at hp'; cases hp'
+    · rw [hp] at hp'; cases hp'
+      exact ⟨f, hf, he⟩
+
+/-- What a windowed `extract` does, in terms of the ghost log: the new history is the `k` most recent
+    base estimates, `k = min(stored + 1, window)`, and the result is `mean(history, fresh weights for k)`. -/
+theorem windowed_step_spec {lin circ : Nat} (eps : ℝ) {s : EE ℝ} {log : List (List ℝ)}
+    (h : EEInv lin circ s) (hl : LogInv s log) (c : Call ℝ) (b : List ℝ) (hp : pushed eps s c = some b) :
+    ∃ f, s.method.fam = some f ∧
+      let k := min (s.hist.items.length + 1) s.hist.window
+      let H := (b :: log).take k
+      1 ≤ k ∧ k ≤ 30 ∧ H.length = k ∧
+      (step eps s c).1.hist.items = H ∧
+      (step eps s c).2 = ⟨true, some (meanEst lin circ H (famWeights f k))⟩ := by
+  obtain ⟨f, hf, hstep⟩ := step_of_pushed eps s c b hp
+  refine ⟨f, hf, ?_⟩
+  intro k H
+  have hlo := h.hist.lo
+  have hhi := h.hist.hi
+  have hlen := h.hist.len
+  have hk1 : 1 ≤ k := by simp only [k]; omega
+  have hk30 : k ≤ 30 := by simp only [k]; omega
+  have hitems : s.hist.items = log.take s.hist.items.length := List.prefix_iff_eq_take.mp hl
+  have hloglen : s.hist.items.length ≤ log.length := hl.length_le
+  have hH : (b :: s.hist.items).take s.hist.window = H := by
+    have h1 : b :: s.hist.items = (b :: log).take (s.hist.items.length + 1) := by
+      rw [List.take_succ_cons, ← hitems]
+    rw [h1, List.take_take]
+    simp only [H, k]
+    congr 1
+    exact Nat.min_comm _ _
+  have hHlen : H.length = k := by
+    simp only [H, List.length_take, List.length_cons]
+    simp only [k]
+    omega
+  obtain ⟨hi1, _⟩ := windowed_items h f b
+  refine ⟨hk1, hk30, hHlen, ?_, ?_⟩
+  · rw [hstep]; simp only; rw [hi1, hH]
+  · rw [hstep]
+    simp only
+    rw [windowed_eq h.cache]
+    simp only
+    rw [HistBuf.add_items s.hist b (by omega) hlen, hH, hHlen, h.lin_eq, h.circ_eq]
+
 end Extract
 end BFL
